@@ -567,7 +567,8 @@ def run_check(pid, tier, jobs=None, only=None, keep=False):
             if not failed and not internal_failed and unknown:
                 # cbmc leaves properties UNKNOWN when it could not decide them
                 internal_failed = unknown
-            reach = [o for o in ob if o["kind"] == "reach"]
+            # other harness entry points of the same file are in the binary but not executed
+            reach = [o for o in ob if o["kind"] == "reach" and not ((o.get("function") or "").startswith("h_") and o.get("function") != g.entry)]
             corefn = set(g.functions) | {g.entry} | set(g.get("core_extra") or [])
             def is_core(o):
                 return (o.get("function") in corefn) or (o["name"].split(".")[0] in corefn)
